@@ -564,7 +564,16 @@ def body_views(case, note):
 
 # ---------------------------------------------------------------- equality
 
-EDITS = ["name", "name-case", "ws", "attr-add", "attr-del", "attr-val", "kid-add", "kid-del", "kid-text", "kid-swap-kind", "kid-as-markup", "dep-field"]
+EDITS = ["name", "name-case", "ws", "attr-add", "attr-del", "attr-val", "attr-val-variant", "kid-add", "kid-del", "kid-text", "kid-swap-kind", "kid-as-markup", "dep-field"]
+
+# attribute values that many tools treat as "the same" (token sets, case, surrounding blanks, number spellings)
+VALUE_VARIANTS = {
+    "class": [("ta tb", "tb ta"), ("ta tb", "ta  tb"), ("ta tb", "ta tb ta"), ("ta", "ta "), ("Ta", "ta")],
+    "style": [("a:b; c:d;", "c:d; a:b;"), ("a:b;", "a: b;"), ("a:b;", "a:b")],
+    "id": [("x", "X"), ("x", " x")],
+    "data-n": [("1", "1.0"), ("1", "01"), ("true", "True")],
+    "lang": [("en", "EN"), ("en-US", "en-us")],
+}
 
 
 def eq_case():
@@ -612,6 +621,12 @@ def edit(r, kind, n):
             return None
         # removing the last supplied pair changes the attribute set or a merged value
         return _replace(r, p, dict(t, attrs=t["attrs"][:-1])) if _attr_model(t["attrs"]) != _attr_model(t["attrs"][:-1]) else None
+    if kind == "attr-val-variant":
+        nm = sorted(VALUE_VARIANTS)[n % len(VALUE_VARIANTS)]
+        v1, v2 = VALUE_VARIANTS[nm][(n // 7) % len(VALUE_VARIANTS[nm])]
+        keep = [a for a in t["attrs"] if gen.norm_attr_name(a[0]) != nm]
+        # both sides get the attribute; they differ only in the spelling of its value
+        return (_replace(r, p, dict(t, attrs=keep + [[nm, v1]])), _replace(r, p, dict(t, attrs=keep + [[nm, v2]])))
     if kind == "attr-val":
         if not t["attrs"]:
             return None
@@ -684,6 +699,10 @@ def body_equality(case, note):
     check(a == b and b == a, "two independent builds of the same recipe are not ==")
     check(not (a != b), "!= is true for structurally identical objects")
     e = edit(r, case["edit"], case["n"])
+    if isinstance(e, tuple):
+        r, e = e
+        a, b = wrap(build(r)), wrap(build(r))
+        check(a == b and b == a, "two independent builds of the same recipe are not ==")
     applied = e is not None and canon(e) != canon(r)
     if applied:
         c = wrap(build(e))
